@@ -37,7 +37,7 @@ package keeper
 //@ ensures bls: err == nil ==> blsFastAggVerify(
 //@           collect(req.Vote.Voters, old(st.relayer.Relayer.Voters), mapval(st.relayer.Voters), st.relayer.Voters[old(st.relayer.Relayer.Proposer)].VoteKey, len(old(st.relayer.Relayer.Voters))),
 //@           votesigndoc(chainid(), old(st.relayer.Sequence), old(st.relayer.Relayer.Epoch), "Bitcoin/NewBlocks", old(st.relayer.Relayer.Proposer),
-//@                       bcat(bcat(bzeros(8), le64(req.StartBlockNumber)), bflat(arr(req.BlockHash), off(req.BlockHash), len(req.BlockHash)))),
+//@                       bflatp(bcat(bzeros(8), le64(req.StartBlockNumber)), arr(req.BlockHash), off(req.BlockHash), len(req.BlockHash))),
 //@           req.Vote.Signature)
 //@ ensures start: err == nil ==> req.StartBlockNumber == old(st.bitcoin.BlockTip) + 1
 //@ ensures tip: err == nil ==> st.bitcoin.BlockTip == old(st.bitcoin.BlockTip) + len(req.BlockHash)
